@@ -20,6 +20,10 @@ def jobs(tier):
     js += shape_strata(M, "c09_l3", tier, quick=strata3, thorough=strata3, max_seconds=ms)
     n, bonds = CURATED["chain-11"]
     js.append(job(M, "c09_l3", "L3/chain-11", dict(ex, n=n, bonds=[list(b) for b in bonds], K_m=1, K_r=0), max_seconds=ms))
+    K = "harness.strkernels"
+    js.append(job(K, "k_wrap_splice", "L1/symbolic-line", dict(max_len=5000 if t else 1000), max_seconds=ms))
+    js.append(job(K, "k_any_split", "L1/any-split", dict(max_len=5000 if t else 1000), max_seconds=ms))
+    js.append(job(K, "k_any_split", "L1/any-two-splits", dict(max_len=5000 if t else 1000, splits=2), max_seconds=ms))
     js.append(job(M, "c09_lengths", "lengths/sweep", dict(kmax=150), max_seconds=ms))
     js.append(job(M, "c09_lengths", "lengths/sweep-1e300", dict(kmax=80 if t else 30, big=True), max_seconds=ms))
     return js
@@ -38,14 +42,15 @@ def main(tier):
         fut = ex.submit(kernels, tier)
         return run_check(
             "C09", tier, jobs(tier), t0=t0,
-            bounds={"L1 (E2, CrossHair)": "splice(wrap(line)) == line and every physical line <= 79 chars for EVERY string line of length <= %d not ending in '-'; a continuation at any split of any line of <= %d chars reads back as the unsplit line" % (150 if t else 80, 20 if t else 10),
+            bounds={"L1 (E1 on SymStr)": "the real _add_v30_line and _concat_lines_with_dash on a line of SYMBOLIC length <= %d with symbolic characters (rope over an uninterpreted character function, LIA+UF): every number of wraps, every content-dependent branch (dashes, blanks at the cut); a continuation at one or two symbolic split positions" % (5000 if t else 1000),
+                    "L1 (E2, CrossHair)": "splice(wrap(line)) == line and every physical line <= 79 chars for EVERY string line of length <= %d not ending in '-'; a continuation at any split of any line of <= %d chars reads back as the unsplit line" % (150 if t else 80, 20 if t else 10),
                     "L2 (E1)": "all labelled graphs n <= %d, {H,C,O,Br} n <= %d; charge in [-15,15] nonzero (presence forked), radical in 1..3, mass >= 1, bond type any integer: all symbolic; coordinates concrete incl. values that need rounding at the 6th decimal" % ((4, 3) if t else (3, 2)),
                     "L3 (E1)": "string -> graph (token lift) -> molfile -> graph -> string on the same strata plus an 11-atom chain",
                     "lengths": "3-atom graph, x coordinate 10^k for every k < 150 (every alignment of the wrap position with the later tokens), bond type 10^(k mod 60), z = -1e300 variant (five wraps per line): concrete values, solver-enumerated k"},
             assumptions=["decomposition: reader = parse . tokenize . splice, writer = wrap . format; given L1 the line length is irrelevant to what the reader sees, so L2 is decided on lines whose symbolic numbers are rendered as 3-character placeholders",
                          "L1b: no line the writer formats ends in '-' (checked on every path of L2: a line ending in '-' must be a full 79-character continuation line)",
                          "REF-V3000-READER (/verif/ref/molfile_ref.py) settles well-formedness independently", "float formatting ({x:.6f}, float()) is C code and is executed, not modelled"],
-            stubs=["module attribute `int`/`float` of the reader modules shadowed", "token lift stubs (L3)"],
+            stubs=["module attribute `int`/`float` of the reader modules shadowed", "token lift stubs (L3)", "module attribute `len` of tucan.io.molfile_writer shadowed while _add_v30_line runs on a SymStr (len() must return an int)", "characters the kernels inspect are assumed printable ASCII (32..126); str.strip/rstrip on symbolic content unwound to 4 characters"],
             outside=["lines longer than the L1 bound with arbitrary content (the exact-length sweep covers up to ~330 characters for specific content)", "calc_coordinates=True (scipy layout)", "attributes outside the format's ranges"],
             explanation="E1: graph_to_molfile -> graph_from_molfile_text with symbolic attributes; obligations: well-formed V3000 (independent reader), physical lines <= 79+newline, same atoms in the same order, charge/radical/mass equal (strict presence), coordinates to six decimals, same bonds and bond types. E2: CrossHair on _add_v30_line/_concat_lines_with_dash with a symbolic line.",
             extra_obligations=fut)
